@@ -214,6 +214,12 @@ class ArgparseRunner:
                 self._support_generator.get_templates(omit_serialization_support=self._args.omit_serialization_support),
                 lambda p: str(p.resolve()),
             )
+            if self._args.support_templates is not None:
+                # Templates in the user's directory mask the built-in support templates of the same name.
+                self._stdout_lister(
+                    sorted(pathlib.Path(self._args.support_templates).glob("**/*.j2")),
+                    lambda p: str(p.resolve()),
+                )
 
         if self._args.generate_support != "only":
             if self._generator.generate_namespace_types:
